@@ -11,6 +11,7 @@ def V(t="Int", v=None):
     if t == "Int": return {"t": "Int", "v": str(_tag[0] if v is None else v)}
     if t == "String": return {"t": "String", "v": "s%d" % _tag[0] if v is None else v}
     if t == "Unsigned": return {"t": "Unsigned", "v": str(_tag[0] if v is None else v)}
+    if t == "BigUnsigned": return {"t": "BigUnsigned", "v": str(18446744073709500000 + _tag[0] if v is None else v)}
     raise ValueError(t)
 def val(t="Int", v=None): return {"k": "val", "v": V(t, v)}
 def col(n): return {"k": "col", "n": n}
@@ -79,6 +80,8 @@ def menu():
         [[c("from", t=["t1"])], [c("from_as", t=["t1"], a="u")], [c("from_subquery", q=sel(c("column", n="id"), c("column", n="a"), c("column", n="b"), c("from", t=["t1"]), c("and_where", e=bin_("SmallerThan", col("a"), val()))), a="t1")],
          [c("from", t=["t1"]), c("from", t=["t2"])],
          [c("from", t=["main", "t1"])],
+         # a three-part name (database.schema.table, PostgreSQL's catalog.schema.table) with an alias
+         [c("from_as", t=["db1", "main", "t1"], a="t1")],
          [c("from_subquery", take=True, q=sel(c("column", n="id"), c("column", n="a"), c("column", n="b"), c("from", t=["t1"]), c("table_sample", method="SYSTEM", pct=40),
                                               c("use_index", name="ix_a", scope="All"), c("and_where", e=bin_("SmallerThan", col("a"), val()))), a="t1")],
          [c("from_values", rows=[[V(), V("String"), V()], [V(), V("String"), V()]], a="t1")],
@@ -97,6 +100,8 @@ def menu():
          # operators whose relative precedence differs between the engines (shift / bitwise and / bitwise or)
          [c("and_where", e=bin_("GreaterThan", bin_("BitAnd", col("a"), bin_("LShift", col("b"), val())), val())),
           c("and_where", e=bin_("Equal", bin_("BitOr", bin_("RShift", col("a"), val()), bin_("LShift", col("b"), val())), val()))],
+         # an unsigned 64-bit value beyond i64::MAX, followed by further values
+         [c("and_where", e=eq(col("a"), val("BigUnsigned"))), c("and_where", e=bin_("NotEqual", col("b"), val())), c("and_where", e=bin_("SmallerThan", col("a"), val("BigUnsigned")))],
          # the same text bound twice (every occurrence is a value of its own), and a comparison with an absent value
          [c("and_where", e=eq(col("c"), val("String", "dup"))), c("and_where", e=bin_("NotEqual", col("c"), val("String", "dup"))), c("and_where", e=eq(col("b"), {"k": "val", "v": {"t": "Int", "null": True}}))],
          [c("and_where", e={"k": "in", "neg": False, "e": col("a"), "vs": [val(), {"k": "val", "v": {"t": "Int", "null": True}}, val()]}),
@@ -117,7 +122,10 @@ def menu():
         [[], [c("and_having", e=bin_("GreaterThan", fn("Count", col("id")), val()))]],
         [[], [c("union", type="All", q=sel(c("column", n="k"), c("from", t=["t2"]), c("and_where", e=eq(col("x"), val()))))],
          [c("union", type="Distinct", q=sel(c("column", n="k"), c("from", t=["t2"]))), c("union", type="Except", q=sel(c("column", n="t1_id"), c("from", t=["t2"]), c("and_where", e=eq(col("x"), val()))))],
-         [c("union", type="Intersect", q=sel(c("column", n="k"), c("from", t=["t2"])))]],
+         [c("union", type="Intersect", q=sel(c("column", n="k"), c("from", t=["t2"])))],
+         # a member with set operations, ORDER BY and LIMIT of its own
+         [c("union", type="Except", q=sel(c("column", n="k"), c("from", t=["t2"]), c("union", type="All", q=sel(c("column", n="t1_id"), c("from", t=["t2"]), c("and_where", e=eq(col("x"), val())))),
+                                         c("order_by", e=col("k"), o={"d": "Asc"}), c("limit", n=2)))]],
         [[], [c("order_by", e=col("a"), o={"d": "Asc"})], [c("order_by", e=col("a"), o={"d": "Desc"}, nulls="Last"), c("order_by", e=col("id"), o={"d": "Asc"})],
          [c("order_by", e=col("a"), o={"d": "Field", "field": [V(), V()]})], [c("order_by", e=bin_("Add", col("a"), val()), o={"d": "Asc"}, nulls="First")],
          [c("order_by", e=col("c"), o={"d": "Field", "field": [V("String", "x\"y"), V("String", "\u00e9t\u00e9"), V("String", "line\nbreak")]})],
@@ -144,6 +152,8 @@ def menu():
          [c("columns", cols=["a", "b"]), c("select_from", q=sel(c("column", n="x"), c("expr", e=val()), c("from", t=["t2"]), c("and_where", e=eq(col("x"), val()))))],
          [c("or_default_values")], [c("or_default_values_many", n=2)],
          [c("columns", cols=["a", "c"]), c("values_panic", row=[val(), val("String")])],
+         # rows added in several steps, a batch after single rows and a second batch
+         [c("columns", cols=["a", "b"]), c("values_panic", row=[val(), val()]), c("values_from_panic", rows=[[val(), val()], [val(), val()]]), c("values_from_panic", rows=[[val(), val()]])],
          [c("columns", cols=["c", "a"]), c("values_panic", row=[val("String", "same"), val()]), c("values_panic", row=[val("String", "same"), val()])]],
         [[], [c("replace")]],
         [[], [c("on_conflict", oc={"cols": ["id"], "action": {"nothing": True}})],
@@ -249,7 +259,11 @@ def nested_with():
 
 def fixed_stmts():
     """statements every run includes besides the menu walks and the random ones"""
-    return [nested_with(), nested_with()]
+    # UPDATE with an aliased target table, alone and with a second table (MySQL: UPDATE t AS g JOIN .. SET ..)
+    upd = lambda *more: {"kind": "update", "calls": [c("table_as", t=["t1"], a="g"), c("value", col="a", e=bin_("Add", tcol("g", "a"), val())), c("value", col="c", e=val("String"))] + list(more)}
+    return [nested_with(), nested_with(),
+            upd(c("and_where", e=eq(tcol("g", "b"), val()))),
+            upd(c("from", t=["t2"]), c("and_where", e=bin_("Equal", tcol("g", "id"), tcol("t2", "t1_id"))), c("and_where", e=bin_("GreaterThan", tcol("t2", "x"), val())))]
 
 def rand_stmt(rng):
     k = rng.random()
